@@ -36,8 +36,37 @@ PLAN = {
     "C17": e1("C17", 1600, 24000, chunks=4),
 }
 
+SCHED_BINS = [f"schedsim-{i:02d}" for i in range(16)]
+
+
+def e2(profile, quick_per_bin, thorough_per_bin):
+    def jobs(n):
+        return [{"binary": b, "package": b, "profile": profile, "runs": n, "chunks_per_job": 1} for b in SCHED_BINS]
+    return {"quick": jobs(quick_per_bin), "thorough": jobs(thorough_per_bin), "timeout_s": {"quick": 900, "thorough": 3000}}
+
+
+PLAN["C07"] = e2("C07", 10000, 200000)
+PLAN["C08"] = e2("C08", 10000, 200000)
+PLAN["C12"] = e2("C12", 10000, 200000)
+
+REAL_E2 = ["brood (stager, stages, claims, run_schedule, par_query)", "hashbrown incl. its rayon RawParIter", "rayon (iterator plumbing: bridge, bridge_unindexed, zip, consumers)"]
+STUB_E2 = ["rayon-core join / join_context / current_num_threads (vendored copy answering to the simulated scheduler; any other pool entry point exits 2)",
+           "global allocator (deterministic auditing arena)", "system bodies (harness systems that touch and record everything reachable)"]
+ASSUME_E2 = [
+    "sampling of schedules x worlds x scheduler decisions: a clean batch is evidence, not proof",
+    "brood-internal code between two harness callbacks is atomic to the scheduler; overlap is judged structurally from the recorded fork/join tree (series-parallel paths), so one run covers all interleavings of its tree",
+    "the schedule catalogue is generated at build time (32 schedules in the quick tier) because staging is decided by trait resolution",
+    "the simulated join reproduces rayon's contract: both closures run to completion, a's panic wins",
+]
+
 GEN_RULE = ("one evaluation = one seeded history (run seed = mix(VERIF_SEED, engine, profile, index)) executed from an empty arena with every "
             "oracle evaluated after every operation; ")
+
+
+def info2(level, rule, probes, expected, crash):
+    d = info(level, rule, probes, expected, crash)
+    d["real"], d["stub"], d["assumptions"] = REAL_E2, STUB_E2, ASSUME_E2
+    return d
 
 
 def info(level, rule, probes, expected, crash="C05"):
@@ -111,3 +140,13 @@ PROPERTY_INFO = {
                 ["fault_fired"],
                 ["fault_fired", "panic_reached_caller"], crash="C17"),
 }
+
+E2_RULE = ("one evaluation = one simulated execution of run_schedule for one catalogue schedule on a seeded world (0-12 archetype populations incl. emptied ones) under a seeded "
+           "scheduler configuration (pool size 1-64, strategy, steal rate, injected root, 1-2 repeats) with every decision drawn from the run seed, "
+           "compared with sequential run_system/run_par_system calls on a clone; ")
+PROPERTY_INFO["C07"] = info2("exploration", E2_RULE + "non-trivial = the schedule changed the world and at least one fork was stolen or a task was started early as a run-time add-on; distinct = distinct (schedule, configuration, decision list)",
+                             ["schedule_changed_world"], ["schedule_changed_world", "run_with_steals", "run_time_add_on_started_early", "tasks_interleaved_in_time", "single_thread_pool", "emptied_archetype"], "C07")
+PROPERTY_INFO["C08"] = info2("exploration", E2_RULE + "non-trivial = at least one pair of different tasks reached the same value with a write among them (the pair is then checked for fork/join ordering); distinct = distinct (schedule, configuration, decision list)",
+                             ["conflicting_task_pairs_checked"], ["conflicting_task_pairs_checked", "run_time_add_on_started_early", "tasks_interleaved_in_time"], "C08")
+PROPERTY_INFO["C12"] = info2("exploration", E2_RULE + "non-trivial = the schedule has a greedy group of two or more independent tasks whose placement was checked, or ran on a single-thread pool; distinct = distinct (schedule, configuration, decision list)",
+                             ["independent_pair_parallel", "single_thread_pool"], ["independent_pair_parallel", "single_thread_pool", "empty_world", "world_without_archetypes", "schedule_has_parallel_group"], "C12")
